@@ -7,6 +7,7 @@ open AbtemVerif AbtemVerif.Proto AbtemVerif.FftGeom AbtemVerif.Np
    crop1  <n2> <ints>                                -> ok <ints>
    crop2  <nx> <ny> <mx> <my> <flat ints>            -> ok <flat ints>
    dp     <nx> <ny> <mx> <my> <T|F shift> <flat>     -> ok <flat ints>
+   cropm  <nx> <ny> <mx> <my> <T|F shifted> <flat>  -> ok <flat ints>                    (DiffractionPatterns._crop)
    unshift <nx> <ny> <flat>                          -> ok <flat ints>                    (ifftshift over both axes)
    parity <n> <T|F even> <v>                         -> ok <int>
    pgpts  <a> <b> <oa> <ob> <parity>                 -> ok <a'> <b'>
@@ -59,6 +60,13 @@ def handle : List String → String
       if xs.length ≠ nx * ny then "bad-op"
       else if mx < 0 || my < 0 then "err value_error"
       else showE showInts (diffractionPattern nx ny xs mx.toNat my.toNat sh)
+    | _, _, _, _, _, _ => "bad-op"
+  | ["cropm", nx, ny, mx, my, sh, xs] =>
+    match parseNat? nx, parseNat? ny, parseInt? mx, parseInt? my, parseBool? sh, parseList? parseInt? xs with
+    | some nx, some ny, some mx, some my, some sh, some xs =>
+      if xs.length ≠ nx * ny then "bad-op"
+      else if mx < 0 || my < 0 then "err value_error"
+      else showE showInts (cropMethod nx ny xs mx.toNat my.toNat sh)
     | _, _, _, _, _, _ => "bad-op"
   | ["unshift", nx, ny, xs] =>
     match parseNat? nx, parseNat? ny, parseList? parseInt? xs with
